@@ -38,6 +38,8 @@ fn history(cfg: &Cfg, rep: &mut Report, permissioned: bool, h: u64, steps: usize
         invoke::<()>(e, t, "mint", args!(e, user, 10_000i128)).unwrap();
         // the relayer holds funds too, so that a forward whose user is also the fee recipient can succeed
         invoke::<()>(e, t, "mint", args!(e, relayer, 10_000i128)).unwrap();
+        // ... and so does the forwarder itself (collected fees): naming it as the user must stay refused
+        invoke::<()>(e, t, "mint", args!(e, fwd, 10_000i128)).unwrap();
     }
     let mut allowed: BTreeSet<usize> = BTreeSet::new();
     let mut target_calls: u32 = 0;
@@ -231,10 +233,56 @@ fn history(cfg: &Cfg, rep: &mut Report, permissioned: bool, h: u64, steps: usize
     rep.end_history();
 }
 
+/// `collect_fee` called directly (both approval strategies): the collecting contract itself named as
+/// the user is refused and nothing moves, whatever balance it has accumulated; an ordinary user with an
+/// allowance pays exactly the fee.
+fn direct_collect(cfg: &Cfg, rep: &mut Report, h: u64) {
+    let mut rng = Rng::for_history(cfg.seed, "C19", cfg.shard, h);
+    rep.begin_history(h);
+    let w = World::new(100, 16);
+    let e = &w.env;
+    e.mock_all_auths_allowing_non_root_auth();
+    let c = e.register(crate::contracts::misc::FeeWrap, ());
+    let tok = e.register(TokBase, ());
+    let (user, rec) = (w.account(), w.account());
+    invoke::<()>(e, &tok, "mint", args!(e, c, 5_000i128)).unwrap();
+    invoke::<()>(e, &tok, "mint", args!(e, user, 5_000i128)).unwrap();
+    let bal = |a: &Address| -> i128 { invoke(e, &tok, "balance", args!(e, a.clone())).must("balance") };
+    for step in 0..40 {
+        let eager = rng.chance(1, 2);
+        let selfuser = rng.chance(1, 2);
+        let who = if selfuser { c.clone() } else { user.clone() };
+        let max = *rng.pick(&[10i128, 50, 5_000]);
+        let fee = *rng.pick(&[1i128, max, max / 2 + 1]);
+        let exp = w.ledger() + 10;
+        let (b_self, b_user, b_rec) = (bal(&c), bal(&user), bal(&rec));
+        e.mock_all_auths_allowing_non_root_auth();
+        let got: Result<(), Fail> = invoke(e, &c, "collect", args!(e, tok.clone(), fee, max, exp, who, rec.clone(), eager));
+        rep.evaluations += 1;
+        let (a_self, a_user, a_rec) = (bal(&c), bal(&user), bal(&rec));
+        rep.op(format!("#{step} collect_fee(fee {fee}, max {max}, user = {}, {}) -> {}", if selfuser { "the collecting contract" } else { "user" }, if eager { "Eager" } else { "Lazy" }, tag(&got)));
+        rep.case(format!("collect_fee/self={selfuser}/eager={eager}/{}", tag(&got)));
+        if selfuser {
+            rep.check("fee", got.is_err() && a_self == b_self && a_rec == b_rec, "C19/fee/collect_fee/collecting-contract-charged-as-user", || format!("collect_fee with the collecting contract as user ({}): {got:?}; its balance {b_self} -> {a_self}, recipient {b_rec} -> {a_rec}", if eager { "Eager" } else { "Lazy" }));
+        } else if got.is_ok() {
+            rep.check("fee", b_user - a_user == fee && a_rec - b_rec == fee && a_self == b_self, "C19/fee/collect_fee/wrong-amount-moved", || format!("fee {fee}: user {b_user} -> {a_user}, recipient {b_rec} -> {a_rec}, collector {b_self} -> {a_self}"));
+            rep.count("direct_collect_ok");
+        } else {
+            rep.check("res", a_user == b_user && a_rec == b_rec && a_self == b_self, "C19/res/collect_fee/failed-collection-left-a-trace", || format!("{got:?}: user {b_user} -> {a_user}, recipient {b_rec} -> {a_rec}"));
+        }
+    }
+    rep.end_history();
+}
+
 pub fn run(cfg: &Cfg, rep: &mut Report) {
-    rep.rule = "Seeded histories on both fee-forwarder examples over 4 Base fee tokens and a counting target: forward with fee/max from {<=0,1,max-1,max,max+1}, expiration on {cur-1,cur,cur+1,cur+50,max_live,max_live+1}, pre-existing allowance below/at/above max, failing target, user = forwarder, user = relayer, relayer with/without the executor role and with/without its authorization; the user's authorization is the exact tuple (3/5) or differs in exactly one field (token, max+-1, expiration, target, function, arguments) or is absent; allow-list enable/disable histories by manager and stranger. Distinct case = (forwarder, fee class, expiration class, allowance class, tuple variant, relayer signs, target ok, outcome).".into();
+    rep.rule = "Seeded histories on both fee-forwarder examples over 4 Base fee tokens and a counting target: forward with fee/max from {<=0,1,max-1,max,max+1}, expiration on {cur-1,cur,cur+1,cur+50,max_live,max_live+1}, pre-existing allowance below/at/above max, failing target, user = forwarder, user = relayer, relayer with/without the executor role and with/without its authorization; the user's authorization is the exact tuple (3/5) or differs in exactly one field (token, max+-1, expiration, target, function, arguments) or is absent; allow-list enable/disable histories by manager and stranger; collect_fee called directly under both approval strategies with the collecting contract itself as user. Distinct case = (forwarder, fee class, expiration class, allowance class, tuple variant, relayer signs, target ok, outcome).".into();
     let nh = cfg.pick(30u64, 800);
     let steps = cfg.pick(200usize, 400);
+    for k in 0..cfg.pick(2u64, 20) {
+        if cfg.runs(700_000 + k) {
+            direct_collect(cfg, rep, 700_000 + k);
+        }
+    }
     for k in 0..nh {
         if cfg.runs(k) {
             history(cfg, rep, true, k, steps);
